@@ -331,6 +331,10 @@ func runTree(prop string, seed uint64, tier string, replay *core.Schedule) (*cor
 		panic(err)
 	}
 	sched := &core.Schedule{Engine: "storesim", Property: prop, Seed: seed, Tier: tier, Config: core.Enc(cfg)}
+	if replay == nil && tier == "thorough" && seed%2 == 0 {
+		// the thorough tier also runs long histories (the configuration records the length)
+		cfg.Steps *= 3
+	}
 	n := cfg.Steps
 	if replay != nil {
 		n = len(replay.Steps)
